@@ -218,6 +218,16 @@ func (w *c01world) mutations(s *c01state) []*c01state {
 		})
 		mk("rec:rename-field["+f+"]", func(c *c01state) { c.Rec.SignedFields[i] = f + "x" })
 	}
+	if len(s.Rec.SignedFields) > 1 {
+		// the list is a set: its order is not part of what was signed
+		mk("rec:reverse-fields", func(c *c01state) {
+			f := c.Rec.SignedFields
+			for i, j := 0, len(f)-1; i < j; i, j = i+1, j-1 {
+				f[i], f[j] = f[j], f[i]
+			}
+		})
+		mk("rec:rotate-fields", func(c *c01state) { c.Rec.SignedFields = append(c.Rec.SignedFields[1:], c.Rec.SignedFields[0]) })
+	}
 	mk("rec:add-field[env::UNRELATED]", func(c *c01state) { c.Rec.SignedFields = append(c.Rec.SignedFields, "env::UNRELATED") })
 	mk("rec:add-field[env::NOPE]", func(c *c01state) { c.Rec.SignedFields = append(c.Rec.SignedFields, "env::NOPE") })
 	mk("rec:add-field[bogus]", func(c *c01state) { c.Rec.SignedFields = append(c.Rec.SignedFields, "bogus") })
@@ -300,7 +310,8 @@ func (w *c01world) judge(s *c01state) (kind, detail, class string) {
 		return "", "", "malformed"
 	}
 	same := w.canonOf(s) == w.canon
-	recSame := s.Rec.Value == w.origRec.Value && s.Rec.Algorithm == w.origRec.Algorithm && strings.Join(s.Rec.SignedFields, ",") == strings.Join(w.origRec.SignedFields, ",")
+	sortedFields := func(f []string) string { c := append([]string{}, f...); sort.Strings(c); return strings.Join(c, ",") }
+	recSame := s.Rec.Value == w.origRec.Value && s.Rec.Algorithm == w.origRec.Algorithm && sortedFields(s.Rec.SignedFields) == sortedFields(w.origRec.SignedFields)
 	keySame := s.Key == w.origKey
 	want := same && recSame && keySame
 	class = fmt.Sprintf("content-same=%v record-same=%v key-same=%v verified=%v", same, recSame, keySame, err == nil)
